@@ -346,6 +346,12 @@ fn expand_enum(
             if attrs.common.fmt.is_none()
                 && variant.fields.is_empty()
                 && attr_name != "display"
+                // A shared format not using `_variant` is the explicit formatting of this variant.
+                && container_attrs
+                    .common
+                    .fmt
+                    .as_ref()
+                    .map_or(true, |fmt| fmt.contains_arg("_variant"))
             {
                 return Err(syn::Error::new(
                     e.variants.span(),
